@@ -83,7 +83,7 @@ def rule_funnel(ctx, rep):
             allowed = ("Arc", "UniqueArc") if cls == "atomic_new" else ("Arc",)
             if cls == "atomic_other":
                 rep.bad("R-FUNNEL", ik, "the count word is accessed by something other than new/fetch_add/fetch_sub/load (%s): the balance algebra cannot account for it" % (t["resolved"]["def"]), F.loc(b, t["span"]), tag)
-            elif hn in allowed and not trait_ or (hn == "Arc" and trait_ in ("core::clone::Clone", "core::ops::drop::Drop") and cls in ("atomic_add", "atomic_sub")) or (cls == "atomic_add" and (trait_ == "core::clone::Clone" or (trait_ or "").endswith("ref_cnt::RefCnt")) and hn in OWNING_HANDLES):
+            elif hn in allowed and not trait_ or (hn == "Arc" and trait_ in ("core::clone::Clone", "core::ops::drop::Drop") and cls in ("atomic_add", "atomic_sub")) or (cls == "atomic_add" and (trait_ == "core::clone::Clone" or (trait_ or "").endswith("ref_cnt::RefCnt")) and hn in OWNING_HANDLES) or (cls == "atomic_add" and not trait_ and hn == "ArcBorrow"):  # (`ArcBorrow::clone_arc` is the borrow's clone)
                 # (an owning handle kind may take its reference itself in its own `Clone` - the count word is the same one; that the
                 # increment is guarded against overflow there too is C16's R-OVFGUARD, that it is balanced R-BAL)
                 rep.ok("R-FUNNEL", ik, cfg=tag)
